@@ -15,6 +15,7 @@
 from __future__ import annotations
 
 import ast
+import re
 from typing import Dict, List,  Any, Optional
 
 from engine.forms import ABS, SEP_TERMINATED, FormEnv
@@ -39,27 +40,51 @@ def run(ctx: Any, prog: Program) -> None:
     pk = prog.module('packlist')
     up = pk.func('unify_path')
     prm = up.args.args[0].arg
-    conv = [a for a in walk_no_nested(up) if isinstance(a, ast.Assign) and dotted(a.targets[0]) == prm and "replace('\\\\', '/')" in ast.unparse(a.value) and 'normpath' in ast.unparse(a.value)]
-    ctx.shape('C18.S5', len(conv) == 1, pk, up, 'unify_path normalises with normpath(...) and converts backslashes to slashes in one assignment', func='unify_path', text='unify_path normalisation')
+    # (re)definitions in statement order; a tested name stands for its definition with earlier names substituted
+    assigns = sorted([a for a in walk_no_nested(up) if isinstance(a, ast.Assign) and isinstance(a.targets[0], ast.Name)], key=lambda a: a.lineno)
+
+    def expanded(name: str, before_line: int, depth: int = 0) -> str:
+        """source of the value `name` holds just before `before_line`, with local names replaced by their definitions"""
+        defs = [a for a in assigns if a.targets[0].id == name and a.lineno < before_line]
+        if not defs or depth > 6:
+            return name
+        d = defs[-1]
+        out = ast.unparse(d.value)
+        for x in sorted({n.id for n in ast.walk(d.value) if isinstance(n, ast.Name)}, key=len, reverse=True):
+            if any(a.targets[0].id == x and a.lineno <= d.lineno for a in assigns) and not (x == name and not [a for a in assigns if a.targets[0].id == name and a.lineno < d.lineno]):
+                out = re.sub(r'\b' + re.escape(x) + r'\b', '(' + expanded(x, d.lineno if x != name else d.lineno, depth + 1) + ')', out)
+        return out
     guards_ = [i for i in walk_no_nested(up) if isinstance(i, ast.If) and i.body and isinstance(i.body[-1], ast.Raise)]
     if len(guards_) != 1:
         ctx.shape('C18.S5', False, pk, up, 'one raising escape test expected in unify_path', func='unify_path', text='unify_path escape test')
     else:
         g_ = guards_[0]
         t_ = g_.test
-        after_conv = bool(conv) and g_.lineno > conv[0].lineno
-        ctx.check('C18.S5', after_conv, pk, g_, 'the escape test must look at the text after backslashes were turned into slashes: os.path.normpath does not treat a backslash as a separator on POSIX, so `a\\..\\..\\x` '
-                  'reaches the test uncollapsed', func='unify_path', text='escape test after slash conversion')
-        substring = isinstance(t_, ast.Compare) and len(t_.ops) == 1 and isinstance(t_.ops[0], ast.In) and isinstance(t_.left, ast.Constant) and t_.left.value in ('../', '..', '/..') and dotted(t_.comparators[0]) == prm
-        component = isinstance(t_, ast.Compare) and len(t_.ops) == 1 and isinstance(t_.ops[0], ast.In) and isinstance(t_.left, ast.Constant) and t_.left.value == '..' and 'split' in ast.unparse(t_.comparators[0])
-        prefix_only = any(isinstance(c, ast.Call) and isinstance(c.func, ast.Attribute) and c.func.attr == 'startswith' and dotted(c.func.value) == prm for c in ast.walk(t_)) and not substring and not component
-        if substring or component:
-            ctx.check('C18.S5', True, pk, g_, 'every remaining `..` component is refused', func='unify_path', text='escape test covers inner components')
-        elif prefix_only:
-            ctx.check('C18.S5', False, pk, g_, f'unify_path only refuses names that START with `../` (`{ast.unparse(t_)[:60]}`): on POSIX normpath leaves backslash-spelled `..` components in place, and after the slash '
-                      'conversion `cfg\\..\\..\\..\\x` is the accepted name `cfg/../../../x`', func='unify_path', text='escape test covers inner components')
+        subj = None
+        if isinstance(t_, ast.Compare) and len(t_.ops) == 1 and isinstance(t_.ops[0], ast.In):
+            subj = t_.comparators[0]
         else:
-            ctx.shape('C18.S5', False, pk, g_, f'escape test `{ast.unparse(t_)[:60]}` is not an enumerated form', func='unify_path', text='escape test covers inner components')
+            calls_ = [c for c in ast.walk(t_) if isinstance(c, ast.Call) and isinstance(c.func, ast.Attribute) and c.func.attr in ('startswith', 'split', 'find')]
+            subj = calls_[0].func.value if calls_ else None
+        base = next((x.id for x in ast.walk(subj) if isinstance(x, ast.Name)), None) if subj is not None else None
+        if base is None:
+            ctx.shape('C18.S5', False, pk, g_, f'subject of the escape test `{ast.unparse(t_)[:60]}` not recognised', func='unify_path', text='unify_path escape test')
+        else:
+            text = expanded(base, g_.lineno)
+            ctx.shape('C18.S5', 'normpath' in text and prm in text, pk, g_, f'the tested value derives from os.path.normpath of the argument (it is `{text[:80]}`)', func='unify_path', text='unify_path normalisation')
+            after_conv = "replace('\\\\', '/')" in text
+            ctx.check('C18.S5', after_conv, pk, g_, f'the escape test looks at `{text[:80]}`, i.e. before backslashes are turned into slashes: os.path.normpath does not treat a backslash as a separator on POSIX, so '
+                      '`a\\..\\..\\x` reaches the test uncollapsed', func='unify_path', text='escape test after slash conversion')
+            substring = isinstance(t_, ast.Compare) and len(t_.ops) == 1 and isinstance(t_.ops[0], ast.In) and isinstance(t_.left, ast.Constant) and t_.left.value in ('../', '..', '/..') and isinstance(t_.comparators[0], ast.Name)
+            component = isinstance(t_, ast.Compare) and len(t_.ops) == 1 and isinstance(t_.ops[0], ast.In) and isinstance(t_.left, ast.Constant) and t_.left.value == '..' and 'split' in ast.unparse(t_.comparators[0])
+            prefix_only = any(isinstance(c, ast.Call) and isinstance(c.func, ast.Attribute) and c.func.attr == 'startswith' for c in ast.walk(t_)) and not substring and not component
+            if substring or component:
+                ctx.check('C18.S5', True, pk, g_, 'every remaining `..` component is refused', func='unify_path', text='escape test covers inner components')
+            elif prefix_only:
+                ctx.check('C18.S5', False, pk, g_, f'unify_path only refuses names that START with `../` (`{ast.unparse(t_)[:60]}`): on POSIX normpath leaves backslash-spelled `..` components in place, and after the slash '
+                          'conversion `cfg\\..\\..\\..\\x` is the accepted name `cfg/../../../x`', func='unify_path', text='escape test covers inner components')
+            else:
+                ctx.shape('C18.S5', False, pk, g_, f'escape test `{ast.unparse(t_)[:60]}` is not an enumerated form', func='unify_path', text='escape test covers inner components')
     rp = raw.get('_resolve_path')
     if rp is None:
         raise AnalysisError('RawFileSystem._resolve_path not found')
@@ -83,6 +108,16 @@ def run(ctx: Any, prog: Program) -> None:
             enclosing.insert(0, p_)
         child_ = p_
         p_ = fs.parents.get(p_)
+    if not enclosing:
+        # guard-clause form: `if <ok-condition>: return <path>` ... `raise RootEscapeError(...)` - the raise is reached when none of them held
+        blk_ = rp.body
+        if raises[0] in blk_:
+            early_ = [st for st in blk_[:blk_.index(raises[0])] if isinstance(st, ast.If) and st.body and isinstance(st.body[-1], ast.Return) and not st.orelse]
+            if early_:
+                enclosing = [ast.If(test=ast.UnaryOp(op=ast.Not(), operand=st.test), body=[], orelse=[]) for st in early_]
+                for e_, st in zip(enclosing, early_):
+                    ast.copy_location(e_, st)
+                    ast.fix_missing_locations(e_)
     if not enclosing:
         raise AnalysisError('_resolve_path: the raise is unconditional')
     single: Dict[str, ast.AST] = {}
